@@ -205,6 +205,7 @@ func vGo(name string, f func())
 func vSeqPart(key, prefix string, idx int) uint64
 func vTempDir() string
 func vSleep(ms int)
+func vSettle(ms int)
 `
 
 type Loaded struct {
